@@ -361,5 +361,5 @@ func c08FrameLatticePart() c08PartSpec {
 			}
 		})
 	})
-	return c08PartSpec{chunks: chunks, bound: fmt.Sprintf("%d chunks: every frame type, every field from {0,1,63,64,16383,16384,2^30-1,2^30,2^62-1} (stream counts also 2^60-1,2^60,2^60+1,2^60+2^8,2^60+2^16+1,2^60+2^31,2^60+2^32,2^61,2^62-1; RESET_STREAM_AT sizes also 2^8,2^16,2^32; data lengths {0,1,63,64}, STREAM also 127,128; data lengths 257 and 65537 for one value per data-carrying frame type), ACK <= 3 ranges; every prefix and every single-byte substitution {00,ff,b^80,b+1} of every encoding (first 24 bytes for the 257/65537 byte values); all-varints-widened-to-8-bytes variant of every encoding; raw STREAM/CRYPTO/NEW_TOKEN/DATAGRAM/CONNECTION_CLOSE/ACK frames whose length or range count claims v + k*2^w (v in {0,1,5}, w in {8,16,32}, k in {1,2}) with v, v+1, v+9 bytes following", len(chunks))}
+	return c08PartSpec{chunks: chunks, bound: fmt.Sprintf("%d chunks: every frame type, every field from {0,1,63,64,16383,16384,2^30-1,2^30,2^62-1} (stream counts also 2^60-1,2^60,2^60+1,2^60+2^8,2^60+2^16+1,2^60+2^31,2^60+2^32,2^61,2^62-1; RESET_STREAM_AT sizes also 2^8,2^16,2^32; data lengths {0,1,63,64}, STREAM also 127,128; data lengths 257 and 65537 for one value per data-carrying frame type), ACK <= 3 ranges; every value parsed back under 4 levels x 8 extension flag combinations x 2 versions, judged by the admission model; every prefix and every single-byte substitution {00,ff,b^80,b+1} of every encoding (first 24 bytes for the 257/65537 byte values); all-varints-widened-to-8-bytes variant of every encoding; raw STREAM/CRYPTO/NEW_TOKEN/DATAGRAM/CONNECTION_CLOSE/ACK frames whose length or range count claims v + k*2^w (v in {0,1,5}, w in {8,16,32}, k in {1,2}) with v, v+1, v+9 bytes following", len(chunks))}
 }
